@@ -103,4 +103,4 @@ def run(ctx):
     names = sched.op_names(weights=dict(STORAGE, **{"group:stdlib": 1, "group:config": 0}))
     names = [n for n in names]
     strat = c01.case_strategy(4 if ctx.tier == "quick" else 8, names, max_stmts=10 if ctx.tier == "quick" else 14)
-    run_cases(ctx, strat, guarded(ctx, check_case), ctx.budget(1400, 50000))
+    run_cases(ctx, strat, guarded(ctx, check_case), ctx.budget(640, 50000))
